@@ -80,16 +80,41 @@ void slu_mt_verif_event(int kind, int pnum, long a, long b, long c) {
 /* ---- allocation fault injection (library built with -include vf_alloc.h; unused otherwise) ---- */
 #include <malloc.h>
 static long vf_count = 0, vf_failat = 0, vf_failed = 0; static int vf_active = 0; static char vf_first_fail_site[128] = "-";
+/* ---- allocation ledger (C17): every request through the library's allocation points, with a fresh id per block ---- */
+#include <pthread.h>
+typedef struct { void *p; long id; int live; char site[40]; } lblock;
+static lblock *lg_blocks = 0; static long lg_nblocks = 0, lg_cap = 0, lg_next = 1; static int lg_on = 0;
+static char *lg_events = 0; static size_t lg_len = 0, lg_ecap = 0; static long lg_nev = 0;
+static pthread_mutex_t lg_mu = PTHREAD_MUTEX_INITIALIZER;
+static void lg_app(const char *s) { size_t l = strlen(s); if (lg_len + l + 1 > lg_ecap) { lg_ecap = (lg_ecap + l) * 2 + 1024; lg_events = realloc(lg_events, lg_ecap); } memcpy(lg_events + lg_len, s, l + 1); lg_len += l; }
+static void lg_alloc(void *p, const char *file, int line) {
+    pthread_mutex_lock(&lg_mu);
+    if (lg_nblocks == lg_cap) { lg_cap = lg_cap * 2 + 256; lg_blocks = realloc(lg_blocks, lg_cap * sizeof(lblock)); }
+    lblock *b = &lg_blocks[lg_nblocks++]; b->p = p; b->id = lg_next++; b->live = 1;
+    const char *bn = strrchr(file, '/'); snprintf(b->site, sizeof b->site, "%s:%d", bn ? bn + 1 : file, line);
+    char t[32]; snprintf(t, sizeof t, " a %ld", b->id); lg_app(t); lg_nev++;
+    pthread_mutex_unlock(&lg_mu);
+}
+static void lg_free(void *p) {
+    pthread_mutex_lock(&lg_mu);
+    long id = -1;
+    for (long k = lg_nblocks - 1; k >= 0; k--) if (lg_blocks[k].live && lg_blocks[k].p == p) { lg_blocks[k].live = 0; id = lg_blocks[k].id; break; }
+    char t[32]; snprintf(t, sizeof t, " f %ld", id); lg_app(t); lg_nev++;
+    pthread_mutex_unlock(&lg_mu);
+}
+static long lg_id_of(const void *p) { for (long k = lg_nblocks - 1; k >= 0; k--) if (lg_blocks[k].live && lg_blocks[k].p == p) return lg_blocks[k].id; return -1; }
 void *vf_malloc(size_t size, const char *file, int line) {
-    if (!vf_active) return malloc(size);     /* only requests issued during a driver call are counted / failed */
+    void *r;
+    if (!vf_active) { r = malloc(size); if (lg_on && r) lg_alloc(r, file, line); return r; }   /* only requests issued during a driver call are counted / failed */
     long k = __atomic_add_fetch(&vf_count, 1, __ATOMIC_SEQ_CST);
     if (vf_failat > 0 && k >= vf_failat) {
         if (__atomic_add_fetch(&vf_failed, 1, __ATOMIC_SEQ_CST) == 1) { const char *b = strrchr(file, '/'); snprintf(vf_first_fail_site, sizeof vf_first_fail_site, "%s:%d", b ? b + 1 : file, line); }
         return NULL;
     }
-    return malloc(size);
+    r = malloc(size); if (lg_on && r) lg_alloc(r, file, line);
+    return r;
 }
-void vf_free(void *p) { free(p); }
+void vf_free(void *p) { if (lg_on && p) lg_free(p); free(p); }
 void vf_abort(const char *msg) { fprintf(stderr, "VF_ABORT %s\n", msg); fflush(stderr); _exit(77); }
 static int count_fds(void) { int c = 0; DIR *d = opendir("/proc/self/fd"); if (!d) return -1; struct dirent *e; while ((e = readdir(d))) if (e->d_name[0] != '.') c++; closedir(d); return c - 1; }
 
@@ -212,6 +237,25 @@ int main(int argc, char **argv) {
         if (!strcmp(tok, "ienv")) { for (int i = 1; i <= 8; i++) ienv_tab[i] = rd_int(); }
         else if (!strcmp(tok, "perturb")) { perturb_level = rd_int(); perturb_seed = (unsigned long long)rd_int(); }
         else if (!strcmp(tok, "failat")) { vf_failat = rd_int(); vf_count = 0; vf_failed = 0; strcpy(vf_first_fail_site, "-"); }
+        else if (!strcmp(tok, "ledger")) { /* ledger 1 : start logging;  ledger dump : the trace so far, the blocks still live with their sites,
+                                              and which of them are reachable from what the caller holds (L, U, option arrays) */
+            next_tok();
+            if (!strcmp(tok, "1")) { lg_on = 1; lg_len = 0; lg_nev = 0; lg_nblocks = 0; lg_next = 1; if (lg_events) lg_events[0] = 0; }
+            else {
+                fprintf(out, "ledger %ld%s\n", lg_nev, lg_events ? lg_events : "");
+                fprintf(out, "ledger_ret");
+                const void *held[32]; int nh = 0;
+                if (haveLU) { SCPformat *Ls = L.Store; NCPformat *Us = U.Store;
+                    held[nh++] = Ls; held[nh++] = Us;
+                    if (userwork_len == 0) { held[nh++] = Ls->nzval; held[nh++] = Ls->nzval_colbeg; held[nh++] = Ls->nzval_colend; held[nh++] = Ls->rowind; held[nh++] = Ls->rowind_colbeg;
+                        held[nh++] = Ls->rowind_colend; held[nh++] = Ls->col_to_sup; held[nh++] = Ls->sup_to_colbeg; held[nh++] = Ls->sup_to_colend;
+                        held[nh++] = Us->nzval; held[nh++] = Us->rowind; held[nh++] = Us->colbeg; held[nh++] = Us->colend; } }
+                if (opts_live) { held[nh++] = opts.etree; held[nh++] = opts.colcnt_h; held[nh++] = opts.part_super_h; }
+                for (int k = 0; k < nh; k++) { long id = lg_id_of(held[k]); if (id > 0) fprintf(out, " %ld", id); }
+                fprintf(out, "\nledger_live");
+                for (long k = 0; k < lg_nblocks; k++) if (lg_blocks[k].live) fprintf(out, " %ld@%s", lg_blocks[k].id, lg_blocks[k].site);
+                fputc('\n', out);
+            } }
         else if (!strcmp(tok, "heap")) { next_tok(); struct mallinfo2 mi = mallinfo2(); fprintf(out, "heap %s %zu %d %d\n", tok, (size_t)mi.uordblks, count_threads_once(), count_fds()); }
         else if (!strcmp(tok, "evlog")) { evlog_on = rd_int(); evlog_dfs = rd_int(); if (evlog_on && !evlog) { evcap = 4000000; evlog = malloc(sizeof(ev_t) * evcap); } }
         else if (!strcmp(tok, "mat")) {
